@@ -1,0 +1,15 @@
+//go:build verif
+
+package geom
+
+// Contracts for the WKB parser (checked by /verif/govc; comment-only file).
+
+//@ prop C08,C04
+
+//@ func (*wkbParser).readByte
+//@   modifies p
+//@   ensures result1 == nil ==> len(p.body) == old(len(p.body)) - 1
+
+//@ func (*wkbParser).parseUint32
+//@   modifies p
+//@   ensures result1 == nil ==> len(p.body) == old(len(p.body)) - 4
